@@ -31,6 +31,7 @@ theorem replay_insert_logs_cut (s r : Store) (pt sch : Levels) (tbls : List (Byt
     (table : Bytes) (t : Levels) (ht : (table, t) ∈ tbls) (cols : List String) (vals : List Val)
     (schema : List FieldDef) (buf : Bytes) (hsch : schemaOf sch table = some schema)
     (hcols : (colsOf schema cols).length = vals.length)
+    (hnames : checkColumns schema (colsOf schema cols) = none)
     (henc : encodeTuple schema ((colsOf schema cols).zip vals).reverse = .ok buf)
     (hlen : buf.length ≤ c_maxValueSize)
     (t' : Levels) (nf' : Nat)
@@ -53,7 +54,7 @@ theorem replay_insert_logs_cut (s r : Store) (pt sch : Levels) (tbls : List (Byt
            r1.hdr.nextFree = nf' ∧ r1.hdr.lastKey = s.hdr.lastKey + 1 ∧
            r1.hdr.nextLSN = s.hdr.nextLSN)) := by
   obtain ⟨s', ptF, logs, erun, hc', hlk', hnf', hcase⟩ := insert_refines' s pt sch tbls h table t ht cols vals
-    schema buf hsch hcols henc hlen t' nf' hins hd' hl' hbig
+    schema buf hsch hcols hnames henc hlen t' nf' hins hd' hl' hbig
   have hinsr : insertAppend t (s.hdr.lastKey + 1) s.hdr.nextLSN buf r.hdr.nextFree = .ok (t', nf') := by
     rw [hrnf]; exact hins
   obtain ⟨r1, ptF1, hrun1, hc1, hself1, hnf1, hlk1, hlsn1, hpr1, hent1, hcase1, _⟩ :=
